@@ -77,6 +77,9 @@ HZero   == { <<1,0,0,0>> }
 HCoarse == IF Thorough THEN { q \in QLat(2) : Primitive(q) /\ ~(q[2] = 0 /\ q[3] = 0 /\ q[4] = 0 /\ q[1] < 0) }
            ELSE { q \in QLat(1) : ~(q[2] = 0 /\ q[3] = 0 /\ q[4] = 0 /\ q[1] < 0) }
            \cup { <<2,1,0,-1>>, <<-2,0,1,1>>, <<1,-2,2,0>>, <<-1,2,0,2>>, <<0,1,2,-2>> }
+           \* rotations beyond 120 deg about a MIXED axis with one dominant component: each lands in a different
+           \* trace <= 0 branch of the matrix -> quaternion extraction that SE_2(3).exp goes through
+           \cup { <<1,3,1,0>>, <<1,0,-3,1>>, <<-1,1,0,3>>, <<1,1,-1,3>>, <<0,3,1,-1>>, <<-1,-1,3,0>> }
 (* Euler B321 targets close to (but outside) the 1e-3 rad gimbal band, with yaw and roll: pitch
    2e-3 .. 2e-2 rad from +-pi/2 -- inside the domain of C02/C03, where the band logic must NOT fire *)
 NearPoleY == { <<501,0,500,0>>, <<501,0,-500,0>>, <<101,0,100,0>>, <<51,0,-50,0>>, <<801,0,800,0>>, <<991,0,-990,0>> }
